@@ -9,3 +9,5 @@ import BobModel.Props.C11
 import BobModel.Props.C14
 import BobModel.Props.C17
 import BobModel.Props.C20
+import BobModel.Props.C08
+import BobModel.Props.C16
